@@ -114,7 +114,7 @@ _MISSING = object()
 
 class SymDict:
     def __init__(self, entries=()):
-        self.entries = [list(e) for e in (entries.items() if isinstance(entries, (dict, SymDict)) else entries)]
+        self.entries = [list(e) for e in (entries.items() if hasattr(entries, "keys") else entries)]
 
     def _find(self, key):
         for k, e in enumerate(self.entries):
